@@ -148,4 +148,14 @@ example : (blockMean [[1/2, 3/2, 5/2, 7/2], [1/2, 1/2, 3/2, 3/2]] [[1, 3, 3, 7]]
     ⟨some [0, 4, 0, 2], none, some [2, 2], .spacing⟩ false true false).toOption
     = some ([[1, 3], [1/2, 3/2]], [[2, 5]], [[1, 1/4]]) := by decide +kernel
 
+/-! ### The regenerated source satisfies the property -/
+/-- The translated loop body of `variance_to_weights`: weights in (0, 1], one of them 1, NaN ↦ 1, same length. -/
+theorem src_v2w (var : List (Option Rat)) (tol : Rat) (htol : 0 ≤ tol) :
+    (Gen.varianceToWeightsComp var tol).length = var.length ∧
+    (∀ w ∈ Gen.varianceToWeightsComp var tol, 0 < w ∧ w ≤ 1) ∧
+    (var ≠ [] → (1 : Rat) ∈ Gen.varianceToWeightsComp var tol) ∧
+    (∀ i (hi : i < var.length), var[i] = none → (Gen.varianceToWeightsComp var tol)[i]? = some 1) := by
+  rw [gen_v2w_comp_eq_model]
+  exact ⟨v2w_shape var tol, v2w_range var tol htol, v2w_has_one var tol htol, fun i hi h => v2w_nan_weight_one var tol htol i hi h⟩
+
 end Verde.C10
